@@ -77,29 +77,33 @@ def oracle(seq, outs):
     """returns list of findings: dict(op_index, kind, why, known) ; kind in early-emission / window"""
     ini = seq[0].split()
     period = int(ini[3])
-    n = int(ini[1])
     res = []
+    pool = {}
     for i, (op, out) in enumerate(zip(seq, outs)):
+        if op.startswith("init "):
+            pool = {}
         if out == "bad-op":
             continue
         if out.startswith("panic") or out.startswith("err:"):
             res.append({"i": i, "kind": "crash", "why": f"{op}: {out}", "known": False})
             continue
         d = parse(out)
-        # (O1) emissions
-        explain = {}
+        # (O1) emissions. Classification of an early emission as the recorded finding: it is the one emission
+        # of round head+1 caused by a tick that the node itself logged as processed with head > tick round
+        # (each such tick explains exactly one emission, early or not; with parallel goroutines the packets of
+        # a tick may be observed one op later than its log line, hence the pool is kept across ops).
         for t in d["T"]:
             rho, h = map(int, t.split(":"))
             if h > rho:
-                explain[h + 1] = explain.get(h + 1, 0) + 1
+                pool[h + 1] = pool.get(h + 1, 0) + 1
         for (r, dt, cnt) in d["E"]:
+            k = int(cnt) if "/" not in cnt else None
+            explained = k is not None and r >= 1 and pool.get(r, 0) >= k
+            if explained:
+                pool[r] -= k
             if r >= 1 and (r - 1) * period <= dt:
                 continue
-            k = int(cnt) if "/" not in cnt else None
-            known = k is not None and explain.get(r, 0) >= k and r >= 1
-            if known:
-                explain[r] -= k
-            res.append({"i": i, "kind": "early-emission", "known": known,
+            res.append({"i": i, "kind": "early-emission", "known": explained,
                         "why": f"after `{op}` the node sent a partial for round {r} at clock genesis{dt:+d}s, but round {r} is scheduled at genesis+{(r - 1) * period}s "
                                f"(period {period}s): {(r - 1) * period - dt}s early; ticks processed in this step (round:head seen) = {d['T'] or '-'}"})
         # (O2) acceptance window
@@ -542,7 +546,7 @@ def explore(ctx, res):
     tier = ctx["tier"]
     per_batch = 12
     n_batches = 3 if tier == "quick" else 120
-    budget_s = 100 if tier == "quick" else 22 * 60
+    budget_s = 60 if tier == "quick" else 20 * 60
     deep_budget_s = 200 if tier == "quick" else 22 * 60   # when something broke: keep looking for a concrete input
     workers = 16
     t0 = time.time()
